@@ -12,7 +12,8 @@ EXPLANATION = (
     "TlsStream iff ssl, be a WebSocketFramed iff ws, contain QuicStream iff quic. W2 the two forward pumps of every relay function are instantiated "
     "from one side's stream into the *other* side's sink. W3 the server dials the address bound in the ConnectTcp pattern (through to_socket_addr) "
     "and hands the payload bound in the same pattern to the relay as the first item. W4 a server codec never returns need-more on a path where its "
-    "inner (authenticated) decode already produced plaintext: decoded bytes are not swallowed.")
+    "inner (authenticated) decode already produced plaintext: decoded bytes are not swallowed. W5 re-entrancy of need-more (C04 R4a/R4e re-evaluated): "
+    "no consumed-then-wait, no replay-cache insert on a path that still answers need-more.")
 ASSUMPTIONS = ["byte equality over all traffic scripts and interleavings is value/schedule-level and is not decided; these are necessary wiring conditions"]
 
 
@@ -230,6 +231,23 @@ def run(ctx):
                    "after the inner (authenticated) decode returned plaintext the codec can still answer need-more: the decrypted bytes are dropped "
                    "(server Shadowsocks: whenever no target address has been parsed, i.e. always for the three legacy ciphers)")
     ctx.floor("W4", "inner decode call sites in codecs", 3, n)
+    w5(ctx)
+
+
+def w5(ctx):
+    """W5: a re-parse after need-more must see the same world (re-evaluates C04's R4a / R4e clauses: they are necessary for transparency
+    whenever the first chunk of a flow is split across reads)"""
+    from ..engine import Ctx
+    from . import c04
+    sub = Ctx(ctx.prog, "C04", ctx.tier)
+    c04.run(sub)
+    n = 0
+    for o in sub.obs:
+        if o.rule in ("R4a", "R4e"):
+            n += 1
+            parts = o.key.split("|")
+            ctx.ob("W5", parts[1], f"{o.rule}:{parts[2]}", o.where, o.ok, o.detail)
+    ctx.floor("W5", "need-more re-entrancy obligations", 10, n)
 
 
 def _async_ret_type(prog, target):
